@@ -21,6 +21,30 @@ class ListFile:
             return l + '\n'
         return ''
 
+    # the other reading styles a file object offers (a changed tree may use them)
+    def read(self, size=-1):
+        out = ''
+        while self.i < len(self.lines):
+            out = out + self.lines[self.i] + '\n'
+            self.i += 1
+        return out
+
+    def readlines(self):
+        out = []
+        while self.i < len(self.lines):
+            out.append(self.lines[self.i] + '\n')
+            self.i += 1
+        return out
+
+    def __iter__(self):
+        return self
+
+    def __next__(self):
+        l = self.readline()
+        if not l:
+            raise StopIteration
+        return l
+
     def close(self):
         self.closed = True
 
